@@ -336,8 +336,9 @@ func (p *Parser) parseSpecs(specs []srcInput, listener *TreeShapeListener) (*sys
 			return nil, err
 		}
 
-		walker := antlr.NewParseTreeWalker()
-		walker.Walk(listener, tree)
+		if err := walkTree(listener, tree, src.filename); err != nil {
+			return nil, err
+		}
 	}
 
 	listener.lintAppDefs()
@@ -508,10 +509,24 @@ func parseImports(parent importDef, src sourceCtxHelper, input string) ([]import
 		return nil, err
 	}
 
-	walker := antlr.NewParseTreeWalker()
-	walker.Walk(listener, tree)
+	if err := walkTree(listener, tree, parent.filename); err != nil {
+		return nil, err
+	}
 
 	return listener.imports, nil
+}
+
+// walkTree walks the parse tree with the listener. The listener panics on input that the grammar accepts
+// but that it cannot represent (e.g. a size specifier on a type that takes none, or a number that does
+// not fit an int64); such a panic is reported as a parse error of that file instead of killing the process.
+func walkTree(listener *TreeShapeListener, tree antlr.ParseTree, filename string) (err error) {
+	defer func() {
+		if r := recover(); r != nil {
+			err = syslutil.Exitf(ParseError, "%s cannot be processed: %v\n", filename, r)
+		}
+	}()
+	antlr.NewParseTreeWalker().Walk(listener, tree)
+	return nil
 }
 
 // apply attributes from src to dst statement and all of its
